@@ -1,3 +1,17 @@
 import TE.Props.C02
 #print axioms TE.C02.C02_ws1
 #print axioms TE.C02.C02_ws1_collection
+#print axioms TE.C02.recon_same_map
+#print axioms TE.C02.C02_sync_is_local_merge
+#print axioms TE.C02.C02_sync_ok
+#print axioms TE.C02.C02_sync_merge_raises
+#print axioms TE.C02.C02_sync_ok_direct
+#print axioms TE.C02.C02_sync_ok_collection
+#print axioms TE.C02.C02_collection_pseudo_metric
+#print axioms TE.C02.C02_schedule_indep
+#print axioms TE.C02.C02_schedule_terminates
+#print axioms TE.C02.wit_sync_ndim_mismatch
+#print axioms TE.C02.wit_sync_unequal_keys
+#print axioms TE.C02.wit_sync_dummy_first_element_only
+#print axioms TE.C02.reg_stateless_metric
+#print axioms TE.C02.reg_stateless_in_collection
